@@ -81,12 +81,40 @@ func c08SeqPlain(goType string, k int, data []byte) string {
 	return fmt.Sprintf("ok %s %016x", strings.Join(ns, ","), h.Sum64())
 }
 
+// c08ReadSized decodes data through a caller-supplied bufio.Reader whose buffer has `size`
+// bytes (any size is a legitimate buffer.Reader). Returns "ok <n> <fnv of the rendered
+// object>" or the outcome class. In the child: if the reader loses bytes, the decoder goes on
+// with garbage lengths.
+func c08ReadSized(goType string, size int, data []byte) string {
+	mk, ok := c08Fresh[goType]
+	if !ok {
+		return "bad"
+	}
+	o := mk()
+	var n int64
+	cls := c08Call(func() (err error) {
+		n, err = o.ReadFrom(bufio.NewReaderSize(bytes.NewReader(data), size))
+		return
+	})
+	if cls != "ok" {
+		return cls
+	}
+	h := fnv.New64a()
+	h.Write([]byte(c08RenderSafe(o)))
+	return fmt.Sprintf("ok %d %016x", n, h.Sum64())
+}
+
 // c08Decode decodes data into a fresh object of goType through the named entry point.
 func c08Decode(goType, entry string, data []byte) string {
 	if strings.HasPrefix(entry, "SeqPlain:") {
 		k := 0
 		fmt.Sscan(strings.TrimPrefix(entry, "SeqPlain:"), &k)
 		return c08SeqPlain(goType, k, data)
+	}
+	if strings.HasPrefix(entry, "ReadFromSized:") {
+		sz := 0
+		fmt.Sscan(strings.TrimPrefix(entry, "ReadFromSized:"), &sz)
+		return c08ReadSized(goType, sz, data)
 	}
 	mk, ok := c08Fresh[goType]
 	if !ok {
